@@ -41,6 +41,7 @@ import (
 	"math/rand"
 	"net"
 	"sort"
+	"strings"
 	"testing"
 	"time"
 
@@ -644,7 +645,14 @@ func vfC07RunCase(t *testing.T, k *vfKit, sc *vfC07Script, stackBuf []byte, trac
 		traces[tr] = true
 		k.Count("distinct_traces", 1)
 	}
-	if idle > 0 && replies > 0 || sweptAtEnd > 0 {
+	reasm := 0
+	for i := range w.writes {
+		if m := w.msgs[w.writes[i].No]; m != nil && m.FragCount > 1 && !w.writes[i].Closed {
+			reasm++
+		}
+	}
+	k.Count("ev_reassembled_messages_written", int64(reasm))
+	if idle > 0 && replies > 0 || sweptAtEnd > 0 || reasm > 0 && strings.HasPrefix(sc.CaseID, "fi-") {
 		js, _ := json.Marshal(sc.Steps)
 		k.Nontrivial(fmt.Sprintf("%d/%s", sc.Timeout, js))
 	}
@@ -1204,3 +1212,95 @@ func TestVerifC07RealIO(t *testing.T) {
 }
 
 const t0RealIO = 500 * int64(time.Millisecond)
+
+// TestVerifC07FragInterleave: fragmented client->server messages of several sessions arrive
+// interleaved fragment by fragment, with packet IDs (and fragment counts) deliberately EQUAL across
+// the sessions, some messages left incomplete, sessions with and without an open socket. For two
+// sessions x two fragments every arrival order of every subset (>= 2) of the four fragments is
+// played; larger shapes are shuffled. Oracles (vfC07CheckCommon): whatever a session's socket
+// writes is, byte for byte, a message of THAT session; a socket is opened only for a session that
+// has completely sent a message.
+func TestVerifC07FragInterleave(t *testing.T) {
+	k := vfNewKit(t, "C07", "udp-fraginterleave")
+	defer k.Finish()
+	stackBuf := make([]byte, 4<<20)
+	traces := map[string]bool{}
+	type piece struct{ s, f int }
+	caseNo := 0
+	run := func(nsess, nfrag int, order []piece, preopen int, gapMs int64) {
+		caseNo++
+		caseID := fmt.Sprintf("fi-%d", caseNo)
+		if rc := k.ReplayCase(); rc != "" && rc != caseID {
+			return
+		}
+		sc := &vfC07Script{CaseID: caseID, Timeout: 2 * vfC07Sec, Roles: map[string]string{}, Plan: &vfC07Plan{NoDelays: true}}
+		g := &vfC07Gen{r: k.Rand(caseID), sc: sc, tm: sc.Timeout}
+		pkt := uint16(7 + caseNo%3)
+		at := 100 * vfC07Ms
+		nos := make([]int, nsess)
+		for s := 0; s < nsess; s++ {
+			sid := uint32(90000 + caseNo*8 + s)
+			sc.Sids = append(sc.Sids, sid)
+			sc.Roles[fmt.Sprint(sid)] = fmt.Sprintf("fragments of packet %d/%d interleaved with the other sessions'", pkt, nfrag)
+			if preopen>>s&1 == 1 {
+				g.msg(at-50*vfC07Ms, sid, 0, 40, "opens the session beforehand")
+			}
+			g.msgNo++
+			nos[s] = g.msgNo
+		}
+		for _, p := range order {
+			sc.Steps = append(sc.Steps, vfC07Step{At: at, Op: "msg", Sid: sc.Sids[p.s], No: nos[p.s], Dst: 1, Port: 1001, Len: 120 + 37*p.s + 8*nfrag,
+				Pkt: pkt, FragID: p.f, FragCount: nfrag, Note: "same packet id and fragment count in every session"})
+			at += gapMs * vfC07Ms
+		}
+		// afterwards every session sends an ordinary message and gets a reply
+		for s, sid := range sc.Sids {
+			g.msg(at+int64(10+s)*vfC07Ms, sid, 0, 48, "ordinary message afterwards")
+			g.op(at+int64(20+s)*vfC07Ms, "reply", sid, 40, "")
+		}
+		sc.EndAt = at + 100*vfC07Ms
+		sc.Steps = append(sc.Steps, vfC07Step{At: at + 5*vfC07Ms, Op: "snap"}, vfC07Step{At: sc.EndAt, Op: "snap"})
+		sort.SliceStable(sc.Steps, func(a, b int) bool { return sc.Steps[a].At < sc.Steps[b].At })
+		vfC07RunCase(t, k, sc, stackBuf, traces)
+	}
+	// 2 sessions x 2 fragments: every order of every subset (>= 2, incl. incomplete ones) of the 4 fragments
+	var exhaustive [][]piece
+	var rec func(chosen, rest []piece)
+	rec = func(chosen, rest []piece) {
+		if len(chosen) >= 2 {
+			exhaustive = append(exhaustive, append([]piece(nil), chosen...))
+		}
+		for i := range rest {
+			nr := append(append([]piece(nil), rest[:i]...), rest[i+1:]...)
+			rec(append(append([]piece(nil), chosen...), rest[i]), nr)
+		}
+	}
+	rec(nil, []piece{{0, 0}, {0, 1}, {1, 0}, {1, 1}})
+	for i, o := range exhaustive {
+		run(2, 2, o, i%4, int64(i%2))
+	}
+	// larger shapes, shuffled, with drops
+	r := k.Rand("shapes")
+	n := k.N(60, 1500)
+	for i := 0; i < n; i++ {
+		nsess, nfrag := 2+r.Intn(3), 2+r.Intn(3)
+		var o []piece
+		for s := 0; s < nsess; s++ {
+			for f := 0; f < nfrag; f++ {
+				if r.Intn(6) > 0 {
+					o = append(o, piece{s, f})
+				}
+			}
+		}
+		switch r.Intn(3) {
+		case 0:
+			r.Shuffle(len(o), func(a, b int) { o[a], o[b] = o[b], o[a] })
+		case 1: // round robin by fragment index
+			sort.SliceStable(o, func(a, b int) bool { return o[a].f < o[b].f })
+		case 2: // the first session's later fragments arrive after everything of the others
+			late := func(p piece) bool { return p.s == 0 && p.f > 0 }
+			sort.SliceStable(o, func(a, b int) bool { return !late(o[a]) && late(o[b]) })
+		}
+		run(nsess, nfrag, o, r.Intn(1<<nsess), int64(r.Intn(3)))
+	}
+}
